@@ -277,6 +277,25 @@ class World:
             self.stale.setdefault(s["b"], self.handles.pop(s["b"]))  # keep the oldest handle
         return out
 
+    def op_stale_read(self, s):
+        """Read through the handle of a bucket deleted since.  What it returns or raises is the store's business;
+        what matters is that nothing changes."""
+        b = s["b"]
+        h = self.stale.get(b)
+        if h is None or b in self.view:
+            return {"skipped": "no stale handle"}
+        k = s.get("kind", 0) % 4
+        if k == 0:
+            out = self._call(h.get, limit=1)
+        elif k == 1:
+            out = self._call(h.get_eventcount)
+        elif k == 2:
+            out = self._call(h.get_by_id, 1)
+        else:
+            out = self._call(h.delete, 1)
+        self.probes["read_through_stale_handle"] += 1
+        return out
+
     def op_insert_stale(self, s):
         """Insert through a Bucket handle whose bucket has been deleted since (expected: rejected)."""
         b = s["b"]
